@@ -50,6 +50,16 @@ class CbError(Exception):
     """The callable's own failure."""
 
 
+# the callable may fail with ANY exception type, including ones the iteration machinery
+# itself gives a meaning to (StopIteration, GeneratorExit) or that library code might catch
+EXC_TYPES = [
+    CbError, StopIteration, GeneratorExit, StopAsyncIteration, KeyError, IndexError, AttributeError, TypeError,
+    ValueError, RuntimeError, LookupError, ArithmeticError, OSError, MemoryError, RecursionError, AssertionError,
+    NotImplementedError, EOFError, SystemExit,
+]
+EXC_BY_NAME = {c.__name__: c for c in EXC_TYPES}
+
+
 def _cell_values(seed, line, track, nmods):
     r = seeds.h64(seed, line, track)
     note = NOTE_VALUES[r % len(NOTE_VALUES)]
@@ -219,11 +229,18 @@ def execute(case):
             entered = [0]
             supplied = {}
 
+            raised = [None]
+
             def fail(kind):
                 fired[kind] = fired.get(kind, 0) + 1
                 if kind == "cb_cancel":
+                    raised[0] = "SimCancel"
                     raise SimCancel("callable cancelled")
-                raise CbError("callable failed")
+                cls = EXC_BY_NAME.get(plan.get("exc", "CbError"), CbError)
+                raised[0] = cls.__name__
+                if cls is not CbError:
+                    fired["cb_raise:" + cls.__name__] = fired.get("cb_raise:" + cls.__name__, 0) + 1
+                raise cls("callable failed")
 
             def observe(pattern):
                 if op.get("observe", True):
@@ -291,7 +308,17 @@ def execute(case):
             except SimCancel:
                 outcome = "failed:BaseException"
             except BaseException as e:
-                outcome = "failed:other:" + type(e).__name__
+                if raised[0] is not None:
+                    # the callable's own exception (possibly converted by the iteration
+                    # protocol, e.g. StopIteration inside a generator -> RuntimeError)
+                    outcome = "failed:" + type(e).__name__
+                else:
+                    outcome = "failed:other:" + type(e).__name__
+            if outcome == "completed" and raised[0] is not None:
+                # the failure was swallowed: whatever the setter reports, the statement's
+                # "leaves the pattern's contents exactly as before" still applies
+                outcome = "failed:swallowed:" + raised[0]
+                probes["callable_failure_swallowed"] = probes.get("callable_failure_swallowed", 0) + 1
             crashed = outcome != "completed"
             if mode != "complete" and not crashed:
                 probes["planned_crash_not_reached"] = probes.get("planned_crash_not_reached", 0) + 1
@@ -351,6 +378,10 @@ def sweep_cases(lines, tracks, attached, dense=128):
             for at in idxs:
                 yield [setup, {"k": "bulk", "setter": setter, "plan": {"mode": mode, "at": at}, "seed": 13, "style": at % 4},
                        {"k": "bulk", "setter": "gen" if setter == "fn" else "fn", "plan": {"mode": "complete"}, "seed": 17, "style": 1}]
+        # every exception type at the first, a middle and the last cell (and spread over all cells)
+        for j, exc in enumerate(EXC_TYPES):
+            for at in sorted({0, ncells // 2, ncells - 1, j % ncells}):
+                yield [setup, {"k": "bulk", "setter": setter, "plan": {"mode": "raise", "at": at, "exc": exc.__name__}, "seed": 37, "style": j % 4}]
         if setter == "gen":
             for mode in ("raise_before_first", "raise_after_last"):
                 yield [setup, {"k": "bulk", "setter": "gen", "plan": {"mode": mode}, "seed": 19, "style": 0}]
@@ -376,6 +407,8 @@ def generate(seed, i, tier="quick"):
             modes += ["mutate_raise", "raise_before_first", "raise_after_last"]
         mode = r.choice(modes)
         plan = {"mode": mode, "at": r.choice([0, ncells - 1, r.randrange(ncells)])}
+        if mode in ("raise", "raise_before_first", "raise_after_last", "mutate_raise") and r.random() < 0.6:
+            plan["exc"] = r.choice(EXC_TYPES).__name__
         if setter == "gen":
             if r.random() < 0.5:
                 plan["shuffle"] = True
